@@ -65,3 +65,50 @@ package enum
 //@   ensures panics <==> e == nil
 //@   ensures result1 == nil ==> result0 == e.values
 //@   ensures forall k :: 0 <= k && k < len(result0) ==> len(result0[k].Value) <= 1000000000000
+
+// ---- C18: "Values ... of the rule list the literals in source order": the compile
+// loop only ever APPENDS to the value list (a literal at its LiteralEnd, a stand-alone
+// comment at its end); the one in-place write is the Comment of the last value, made
+// only while that value's line is still open ----
+//@ func newScanner(file, oo)
+//@   props C18
+//@   trusted "allocates a scanner over the file and applies caller-supplied options: a fresh object, nothing else changes (options are functions on the new scanner)"
+//@   requires file != nil
+//@   nopanic
+//@   ensures fresh(result)
+//@ func (*scanner).Next()
+//@   props C18
+//@   trusted "the enum scanner's step: touches only the scanner's own state (its state functions are under contract separately, where stated)"
+//@   requires s != nil
+//@   nopanic
+//@   modifies *s
+//@   ensures result1 == nil ==> lexWF(result0) && result0.end + 1 - result0.begin <= 1000000000000
+//@ func (*Enum).handleLiteralEnd(lex)
+//@   props C18
+//@   requires e != nil && lexWF(lex)
+//@   nopanic
+//@   modifies e.values, e.values[*]
+//@   ensures e.values.$arr == old(e.values.$arr) || fresh(e.values)
+//@   ensures forall j :: 0 <= j && j < old(len(e.values)) ==> e.values[j] == old(e.values[j])
+//@   ensures result != nil ==> len(e.values) == old(len(e.values))
+//@   ensures result == nil ==> len(e.values) == old(len(e.values)) + 1 && e.values[old(len(e.values))].Value == old(lexBytes(lex)) && e.values[old(len(e.values))].Type != jschema.SchemaTypeComment && len(e.values[old(len(e.values))].Comment) == 0
+//@ func (*Enum).handleEndOfComment(lex, collectLiteral)
+//@   props C18
+//@   requires e != nil && lexWF(lex) && (collectLiteral ==> len(e.values) > 0)
+//@   nopanic
+//@   modifies e.values, e.values[*]
+//@   ensures e.values.$arr == old(e.values.$arr) || fresh(e.values)
+//@   ensures collectLiteral ==> len(e.values) == old(len(e.values)) && (forall j :: 0 <= j && j < len(e.values) - 1 ==> e.values[j] == old(e.values[j]))
+//@           && e.values[len(e.values)-1].Value == old(e.values[len(e.values)-1].Value) && e.values[len(e.values)-1].Type == old(e.values[len(e.values)-1].Type)
+//@           && spells(old(trimOf(lexBytes(lex))), e.values[len(e.values)-1].Comment)
+//@   ensures !collectLiteral ==> len(e.values) == old(len(e.values)) + 1 && (forall j :: 0 <= j && j < old(len(e.values)) ==> e.values[j] == old(e.values[j]))
+//@           && e.values[old(len(e.values))].Type == jschema.SchemaTypeComment && len(e.values[old(len(e.values))].Value) == 0 && spells(old(trimOf(lexBytes(lex))), e.values[old(len(e.values))].Comment)
+//@ func (*Enum).doCompile()
+//@   props C18
+//@   requires e != nil && e.file != nil
+//@   maypanic
+//@   modifies *
+//@   ensures len(e.values) >= old(len(e.values))
+//@   ensures forall j :: 0 <= j && j < old(len(e.values)) - 1 ==> e.values[j].Value == old(e.values[j].Value) && e.values[j].Type == old(e.values[j].Type) && e.values[j].Comment == old(e.values[j].Comment)
+//@   loop 0 invariant e != nil && scan != nil && len(e.values) >= old(len(e.values)) && (collectLiteral ==> len(e.values) > 0)
+//@   loop 0 invariant forall j :: 0 <= j && j < old(len(e.values)) - 1 ==> e.values[j].Value == old(e.values[j].Value) && e.values[j].Type == old(e.values[j].Type) && e.values[j].Comment == old(e.values[j].Comment)
